@@ -15,3 +15,25 @@ pub fn eval_decimal(expr: String, placeholder: Decimal) -> Result<Decimal, Parse
     let ast = math_parser.parse()?;
     Ok(eval(ast)?)
 }
+
+#[cfg(feature = "verif_hooks")]
+pub fn verif_tokens(expr: &str) -> Option<Vec<String>> {
+    let expr = expr.split_whitespace().collect::<String>();
+    let mut lexer = tokenizer::Tokenizer::new(&expr);
+    let mut out = Vec::new();
+    loop {
+        let tok = lexer.next()?;
+        if tok == token::Token::Eof {
+            break;
+        }
+        out.push(format!("{:?}", tok));
+    }
+    Some(out)
+}
+
+#[cfg(feature = "verif_hooks")]
+pub fn verif_ast(expr: &str, placeholder: rust_decimal::Decimal) -> Result<String, ParseError> {
+    let expr = expr.split_whitespace().collect::<String>();
+    let mut math_parser = Parser::new(&expr, Some(placeholder))?;
+    Ok(format!("{:?}", math_parser.parse()?))
+}
